@@ -144,6 +144,21 @@ theorem history_export_import {B : Nat} (hB : 4 ≤ B) (hashOf : Tree → Bytes)
   · have hmem := MT.lookup_mem hv
     exact ⟨_, import_export (hi.saved _ hmem) (hk.saved _ hmem) stream hs, rfl, rfl⟩
 
+/-- non-vacuity of the hypotheses of `setSlot_eq_build` / `cached_update_eq_rebuild`
+(`B = 4`) and of `reopen_after_save_identity` (the empty history). -/
+example (H : Bytes → Hash) :
+    mmSetSlot H 4 (mmBuild H 4 (List.replicate 8 [])) 1 [9] =
+      mmBuild H 4 ((List.replicate 8 []).set (4 + 1) [9]) :=
+  setSlot_eq_build H 4 (by decide) _ rfl 1 (by decide) [9]
+
+example (H : Bytes → Hash) :
+    mmSetSlot H 4 (cachedArray H 4 [[1], [2]]) 1 [9] = cachedArray H 4 [[1], [9]] :=
+  cached_update_eq_rebuild H 4 (by decide) [[1], [2]] (by decide) 1 (by decide) [9]
+
+example (hashOf : Tree → Bytes) :
+    MT.run 4 hashOf ([] ++ [.save, .reopen]) = MT.run 4 hashOf ([] ++ [.save]) :=
+  reopen_after_save_identity (by decide) hashOf [] rfl rfl
+
 /-- non-vacuity: a concrete well-formed tree with non-empty keys and its round trip. -/
 example : importStream 4 (exportNode 0 (⟨[([1], [2]), ([3], [])]⟩ : Leaf)) =
     some (.node 0 (⟨[([1], [2]), ([3], [])]⟩ : Leaf)) := by
